@@ -3,6 +3,7 @@ C04 — acyclicity test and word enumeration.
 -/
 import Pfl.Proofs.FAOracle
 import Pfl.Props.C04_Oracle
+import Pfl.Proofs.FAWords
 namespace Pfl
 namespace ENFA
 variable {σ : Type} [DecidableEq σ]
@@ -12,41 +13,42 @@ def HasReachableCycle (A : ENFA σ) : Prop :=
   ∃ s ∈ A.starts, ∃ q, Reach A.outs s q ∧ ∃ r ∈ A.outs q, Reach A.outs r q
 
 /-- the oracle `reachableCycle` decides `HasReachableCycle` -/
-theorem reachableCycle_iff (A : ENFA σ) : A.reachableCycle = true ↔ A.HasReachableCycle := by
-  sorry
+theorem reachableCycle_iff (A : ENFA σ) : A.reachableCycle = true ↔ A.HasReachableCycle :=
+  reachableCycle_iff' A
 
 /-- `is_acyclic` (explicit stack of paths): whenever it answers, the answer is
 "no cycle is reachable from a start state" -/
 theorem isAcyclic_iff (A : ENFA σ) (fuel : Nat) (b : Bool) (h : A.isAcyclic fuel = some b) :
-    b = true ↔ ¬ A.HasReachableCycle := by
-  sorry
+    b = true ↔ ¬ A.HasReachableCycle :=
+  isAcyclic_iff' A fuel b h
 
 /-- the bounded-language oracle lists exactly the accepted words of length `≤ n` -/
 theorem mem_langUpTo_iff (A : ENFA σ) (hA : A.WF) (n : Nat) (w : List Nat) :
-    w ∈ A.langUpTo n ↔ w.length ≤ n ∧ A.Lang w := by
-  sorry
+    w ∈ A.langUpTo n ↔ w.length ≤ n ∧ A.Lang w :=
+  mem_langUpTo_iff' A hA n w
 
-theorem langUpTo_nodup (A : ENFA σ) (n : Nat) : (A.langUpTo n).Nodup := by
-  sorry
+theorem langUpTo_nodup (A : ENFA σ) (n : Nat) : (A.langUpTo n).Nodup :=
+  langUpTo_nodup' A n
 
 /-- `_get_states_leading_to_final` (after the repair): exactly the states from which a final
 state can be reached -/
 theorem mem_leadingToFinal_iff (A : ENFA σ) (q : σ) :
-    q ∈ A.leadingToFinal ↔ ∃ w, ∃ f ∈ A.finals, A.Run q w f := by
-  sorry
+    q ∈ A.leadingToFinal ↔ ∃ w, ∃ f ∈ A.finals, A.Run q w f :=
+  mem_leadingToFinal_iff' A q
 
 /-- `get_accepted_words(max_length)`: whenever the queue loop finishes, it has yielded every
 accepted word of length `≤ n` exactly once and nothing else -/
 theorem acceptedWords_exact (A : ENFA σ) (n : Nat) (fuel : Nat) (ws : List (List Nat))
     (h : A.acceptedWords (some n) fuel = some ws) :
-    ws.Nodup ∧ ∀ w, w ∈ ws ↔ w.length ≤ n ∧ A.Lang w := by
-  sorry
+    ws.Nodup ∧ ∀ w, w ∈ ws ↔ w.length ≤ n ∧ A.Lang w :=
+  wordsLoop_exact A (some n) fuel ws h
 
 /-- unbounded enumeration: if it finishes, it has yielded exactly the language -/
 theorem acceptedWords_exact_unbounded (A : ENFA σ) (fuel : Nat) (ws : List (List Nat))
     (h : A.acceptedWords none fuel = some ws) :
     ws.Nodup ∧ ∀ w, w ∈ ws ↔ A.Lang w := by
-  sorry
+  have := wordsLoop_exact A none fuel ws h
+  simpa [lenOK] using this
 
 end ENFA
 end Pfl
